@@ -1,4 +1,93 @@
-import Tpp.Model.Terminal
-import Tpp.Ref.Render
+import Tpp.Lemmas.Step
+/-!
+C08 – what the terminal state reports as known is true of the real terminal.
+
+`Agree s vt` *is* the property: every `some` in the record (`last` → rendition and character set,
+`cursor`, `saved`, `visible`) equals the state of the reference terminal that has processed every byte
+written so far.  The theorem is the simulation: it holds at every point of every in-domain history, for
+every terminal size, all three end-of-line behaviours, all three erase behaviours (the configuration is
+carried inside `vt` and unconstrained), and every initial terminal state.
+-/
 namespace Tpp.Props.C08
+open Tpp
+
+/-- the property spelled out field by field (what `Agree` says) -/
+def RecordTrue (s : TermState) (vt : VT) : Prop :=
+  (∀ e, s.last = some e → vt.rend = rendOf e.attr ∧ CharsetAgree e.glyph.cs vt) ∧
+  (∀ p, s.cursor = some p → vt.cx = p.x.toNat ∧ vt.cy = p.y.toNat ∧ 0 ≤ p.x ∧ 0 ≤ p.y ∧ vt.pending = false ∧
+      p.x.toNat < vt.w ∧ p.y.toNat < vt.h) ∧
+  (∀ p, s.saved = some p → vt.saved = some (p.x.toNat, p.y.toNat)) ∧
+  (∀ b, s.visible = some b → vt.cursorVisible = b) ∧
+  (s.size.width = vt.w ∧ s.size.height = vt.h)
+
+theorem recordTrue_of_agree (s : TermState) (vt : VT) (h : Agree s vt) : RecordTrue s vt := by
+  obtain ⟨⟨_, _, hrend, hcs, hvis⟩, hC⟩ := h
+  refine ⟨?_, ?_, ?_, hvis, hC.width, hC.height⟩
+  · intro e he; exact ⟨hrend e he, by simpa [he] using hcs⟩
+  · intro p hp
+    obtain ⟨a, b, c, d, e, f, g⟩ := hC.cursor p hp
+    exact ⟨c.symm, d.symm, a, b, e, by rw [c]; exact f, by rw [d]; exact g⟩
+  · intro p hp; exact (hC.saved p hp).2.2.1
+
+/-- at every point (every prefix) of every in-domain history the record is true of the terminal -/
+theorem C08_agree_run (beh : Behaviour) (st : TermState × VT) (hA : Agree st.1 st.2) (evs : List Ev)
+    (hwf : RunWF beh st evs) (k : Nat) :
+    RecordTrue (Sys.run beh st (evs.take k)).1 (Sys.run beh st (evs.take k)).2 := by
+  have hwf' : ∀ (evs : List Ev) (st : TermState × VT) (k : Nat), RunWF beh st evs → RunWF beh st (evs.take k) := by
+    intro evs
+    induction evs with
+    | nil => intro st k h; simpa using h
+    | cons ev evs ih =>
+      intro st k h
+      cases k with
+      | zero => simp [RunWF]
+      | succ k => exact ⟨h.1, ih _ k h.2⟩
+  exact recordTrue_of_agree _ _ (agree_run beh (evs.take k) st hA (hwf' evs st k hwf))
+
+/-- a fresh `terminal` object and a terminal in ANY unknown state agree once the size is declared -/
+theorem C08_fresh (beh : Behaviour) (vt0 : VT) (hu : vt0.Unknown)
+    (w h : Nat) (cells : Bool → Grid) (cx cy : Nat) (saved : Option (Nat × Nat)) (pending : Bool) :
+    Agree (Sys.step beh ({}, vt0) (.resize w h cells cx cy saved pending)).1
+          (Sys.step beh ({}, vt0) (.resize w h cells cx cy saved pending)).2 :=
+  agree_resize_fresh beh {} vt0 (agreeRend_init vt0 hu) w h cells cx cy saved pending
+
+/-- whenever an operation makes the real state terminal-dependent the record says *unknown*:
+    (a) writing the last column, (b) a size change, (c) restoring a never-saved position -/
+theorem C08_unknown_when_dependent (beh : Behaviour) (s : TermState) :
+    (∀ e p, s.cursor = some p → p.x + 1 = s.size.width → (step beh s (.writeElement e)).1.cursor = none) ∧
+    (∀ vt w h cells cx cy saved pending,
+        (Sys.step beh (s, vt) (.resize w h cells cx cy saved pending)).1.cursor = none ∧
+        (Sys.step beh (s, vt) (.resize w h cells cx cy saved pending)).1.saved = none) ∧
+    (s.saved = none → (step beh s .restoreCursor).1.cursor = none) := by
+  refine ⟨?_, ?_, ?_⟩
+  · intro e p hc hx
+    have h1 : (defaultAttr s).1.cursor = some p ∧ (defaultAttr s).1.size = s.size := by
+      unfold defaultAttr; cases s.last <;> simp [hc]
+    simp only [step, rawElement, advanceCursor, h1.1, h1.2, hx, if_true]
+  · intro vt w h cells cx cy saved pending; exact ⟨rfl, rfl⟩
+  · intro h; simp [step, h]
+
+/-- … and the unknown really is terminal-dependent: after the last column the three end-of-line behaviours
+    leave the cursor in three different places, so no single guess could be true of all of them -/
+theorem C08_last_column_is_terminal_dependent (vt : VT) (bs : List Byte) (hp : vt.pending = false)
+    (hx : vt.cx + 1 = vt.w) (hy : vt.cy + 1 < vt.h) :
+    (vt.wrap = .deferred → (vt.print bs).cx = vt.cx ∧ (vt.print bs).pending = true) ∧
+    (vt.wrap = .immediate → (vt.print bs).cx = 0 ∧ (vt.print bs).cy = vt.cy + 1) ∧
+    (vt.wrap = .none → (vt.print bs).cx = vt.cx ∧ (vt.print bs).pending = false) := by
+  have hlt : ¬ (vt.cx + 1 < vt.w) := by omega
+  refine ⟨?_, ?_, ?_⟩ <;> intro hw <;>
+    simp [VT.print, VT.resolvePending, hp, VT.place, VT.advance, hlt, hw, VT.newline, hy]
+
+-- non-vacuity: the invariant is satisfiable by a state with every field known
+example : Agree { size := ⟨3, 2⟩, last := some {}, cursor := some ⟨1, 1⟩, saved := some ⟨2, 0⟩, visible := some true }
+    { w := 3, h := 2, wrap := .immediate, eraseMode := .current, cx := 1, cy := 1, pending := false, rend := {},
+      g0 := .usAscii, utf8 := false, cursorVisible := true, mouse1000 := true, mouse1003 := false, alt := true,
+      title := [], saved := some (2, 0), ps := .ground, malformed := false, log := [], cells := fun _ _ _ => Cell.blank } := by
+  refine ⟨⟨rfl, rfl, ?_, ?_, ?_⟩, ⟨rfl, rfl, ?_, ?_⟩⟩
+  · intro e he; cases he; decide
+  · simp [CharsetAgree]
+  · intro b hb; cases hb; rfl
+  · intro p hp; cases hp; decide
+  · intro p hp; cases hp; decide
+
 end Tpp.Props.C08
